@@ -30,14 +30,14 @@ structure Good (pf : Ver → TextId → Option TreeId) (s : St) (m t : Bool) : P
   models : m = true → ModelsOk s.file
   metaT : t = true → MetaOk s.file
 
-theorem modelsOk_queryable {f : DbFile} (h : ModelsOk f) : ∃ m, f.queryable = some m := by
+theorem modelsOk_queryable {f : DbFile} (h : ModelsOk f) : ∃ m, f.queryable = some m ∧ m.layout = .ok := by
   cases f with
   | garbage => cases h
   | db m t =>
     cases m with
     | none => cases h
     | some mm =>
-      refine ⟨mm, ?_⟩
+      refine ⟨mm, ?_, h⟩
       have : mm.layout = .ok := h
       simp [DbFile.queryable, this]
 
@@ -167,7 +167,7 @@ theorem setRows_notGarbage {f : DbFile} {rows : List Row} (h : f ≠ .garbage) :
 theorem touch_good {f : DbFile} {x : TextId} {v : Ver} {t : Int} (hm : ModelsOk f) :
     ∃ f', txTouch x v t f = .ok f' ∧ ModelsOk f' ∧ f' ≠ .garbage ∧ (MetaOk f → MetaOk f') ∧
       (∀ pf, FileInv pf f → FileInv pf f') := by
-  obtain ⟨m, hq⟩ := modelsOk_queryable hm
+  obtain ⟨m, hq, _⟩ := modelsOk_queryable hm
   have hng : f ≠ .garbage := by intro e; subst e; cases hm
   have he : txTouch x v t f = .ok (f.setRows (m.rows.map fun r =>
       if matches_ x v r then { r with lastHit := max (r.lastHit + 1) t } else r)) := by simp [txTouch, hq]
@@ -178,10 +178,10 @@ theorem touch_good {f : DbFile} {x : TextId} {v : Ver} {t : Int} (hm : ModelsOk 
 theorem insert_good {f : DbFile} {x : TextId} {v : Ver} {tree : TreeId} {t : Int} (hm : ModelsOk f) :
     ∃ f', txInsert x v tree t f = .ok f' ∧ ModelsOk f' ∧ f' ≠ .garbage ∧ (MetaOk f → MetaOk f') ∧
       (∀ pf, pf v x = some tree → FileInv pf f → FileInv pf f') := by
-  obtain ⟨m, hq⟩ := modelsOk_queryable hm
+  obtain ⟨m, hq, hl⟩ := modelsOk_queryable hm
   have hng : f ≠ .garbage := by intro e; subst e; cases hm
   have he : txInsert x v tree t f = .ok (f.setRows ((if m.layout = .ok then m.rows.filter (fun r => !matches_ x v r)
-      else m.rows) ++ [⟨x, v, .good (some tree), t⟩])) := by simp [txInsert, hq]
+      else m.rows) ++ [⟨x, v, .good (some tree), t⟩])) := by simp [txInsert, hq, hl]
   refine ⟨_, he, setRows_modelsOk hm, setRows_notGarbage hng, setRows_metaOk, ?_⟩
   intro pf hpf h
   exact fileInv_insert h hpf he
@@ -270,14 +270,13 @@ theorem ownTx_rely {g : DbFile → DbFile} (h : OwnTx pf g) : Rely pf g := by
       exact ⟨hng, setRows_notGarbage hng, setRows_modelsOk, setRows_metaOk, fun h => fileInv_touch h he⟩
   | insert x v tree t hpf =>
     apply rely_of_cases; intro f
-    cases hq : f.queryable with
-    | none => left; simp [txInsert, hq]
-    | some m =>
+    cases he : txInsert x v tree t f with
+    | error e => left; rfl
+    | ok f' =>
       right
+      obtain ⟨m, hq, _, rfl⟩ := txInsert_ok he
       have hng : f ≠ .garbage := by intro e; subst e; simp [DbFile.queryable] at hq
-      have he : txInsert x v tree t f = .ok (f.setRows ((if m.layout = .ok then m.rows.filter (fun r => !matches_ x v r)
-          else m.rows) ++ [⟨x, v, .good (some tree), t⟩])) := by simp [txInsert, hq]
-      simp only [he]
+      simp only []
       exact ⟨hng, setRows_notGarbage hng, setRows_modelsOk, setRows_metaOk, fun h => fileInv_insert h hpf he⟩
   | id => exact ⟨fun _ h => h, fun _ h => h, fun _ h => h, fun _ h => h⟩
   | comp _ _ ih1 ih2 =>
@@ -394,7 +393,7 @@ theorem afterInitI_spec {cfg : Cfg} {s : St} {x : TextId} {upd : Bool} {env : In
   unfold afterInitI
   simp only []
   obtain ⟨g1, r1, v1, _⟩ := env_spec henv h
-  obtain ⟨m, hm⟩ := modelsOk_queryable (g1.models rfl)
+  obtain ⟨m, hm, _⟩ := modelsOk_queryable (g1.models rfl)
   cases hl : txLookup x (s.env env).1.ver (s.env env).1.file with
   | error e => simp [txLookup, hm] at hl
   | ok o =>
